@@ -347,77 +347,17 @@ func ruleHeaderPerBlock(c *Ctx, p *core.Program, rule string) {
 		c.R.Unk(rule, core.FuncName(eb), cfg, p.Pos(eb.Pos()), "encodeBlock has no string parameter (table name)")
 		return
 	}
-	fromParam := func(fn *ssa.Function, v ssa.Value) bool {
-		return core.DependsOn(v, func(x ssa.Value) bool {
-			if x == ssa.Value(tn) {
-				return true
-			}
-			if fv, ok := x.(*ssa.FreeVar); ok && fn.Parent() == eb {
-				for i, f := range fn.FreeVars {
-					if f == fv {
-						// the binding at the MakeClosure site
-						for _, b := range eb.Blocks {
-							for _, in := range b.Instrs {
-								if mc, ok := in.(*ssa.MakeClosure); ok && mc.Fn == ssa.Value(fn) && i < len(mc.Bindings) {
-									if mc.Bindings[i] == ssa.Value(tn) {
-										return true
-									}
-									// the parameter spilled to a cell
-									if al, ok := mc.Bindings[i].(*ssa.Alloc); ok {
-										for _, r := range *al.Referrers() {
-											if st, ok := r.(*ssa.Store); ok && st.Addr == ssa.Value(al) && st.Val == ssa.Value(tn) {
-												return true
-											}
-										}
-									}
-								}
-							}
-						}
-					}
-				}
-			}
-			return false
-		}, false)
-	}
-	// the store of TableName
-	var site ssa.Instruction // the instruction of encodeBlock that performs (or hands over) the encoding
-	found := false
-	for _, fn := range append([]*ssa.Function{eb}, eb.AnonFuncs...) {
-		for _, b := range fn.Blocks {
-			for _, in := range b.Instrs {
-				st, ok := in.(*ssa.Store)
-				if !ok {
-					continue
-				}
-				fa, ok := st.Addr.(*ssa.FieldAddr)
-				if !ok || fieldNameOnly(fa.X.Type(), fa.Field) != "TableName" {
-					continue
-				}
-				found = true
-				if !fromParam(fn, st.Val) {
-					c.R.Bad(rule, core.FuncName(fn)+"/TableName", cfg, p.Pos(st.Pos()), "ClientData.TableName is not taken from encodeBlock's table-name argument")
-					return
-				}
-				if fn == eb {
-					site = st
-				} else {
-					for _, b2 := range eb.Blocks {
-						for _, in2 := range b2.Instrs {
-							if cl, ok := in2.(ssa.CallInstruction); ok {
-								for _, a := range cl.Common().Args {
-									if mc, ok := a.(*ssa.MakeClosure); ok && mc.Fn == ssa.Value(fn) {
-										site = in2
-									}
-								}
-							}
-						}
-					}
-				}
-			}
-		}
-	}
+	site, found, fromArg, helperTotal := headerEncoding(eb, tn)
 	if !found || site == nil {
-		c.R.Unk(rule, core.FuncName(eb), cfg, p.Pos(eb.Pos()), "no store of ClientData.TableName found in encodeBlock or its closures")
+		c.R.Unk(rule, core.FuncName(eb), cfg, p.Pos(eb.Pos()), "no store of ClientData.TableName found in encodeBlock, its closures or the helpers it calls")
+		return
+	}
+	if !fromArg {
+		c.R.Bad(rule, core.FuncName(eb)+"/TableName", cfg, p.Pos(site.Pos()), "ClientData.TableName is not taken from encodeBlock's table-name argument")
+		return
+	}
+	if !helperTotal {
+		c.R.Bad(rule, core.FuncName(eb), cfg, p.Pos(site.Pos()), "the helper that encodes the header can return without encoding it")
 		return
 	}
 	w := core.ReachAvoiding(core.Entry(eb), func(in ssa.Instruction) bool {
@@ -1145,6 +1085,7 @@ func ruleLimbPairs(c *Ctx, p *core.Program, rule string) {
 		return "", false
 	}
 	n := 0
+	putOf, getOf := map[*ssa.Function]map[string]int64{}, map[*ssa.Function]map[string]int64{}
 	for _, bits := range []string{"128", "256"} {
 		put := p.Func(core.PkgProto, "binPutUInt"+bits)
 		get := p.Func(core.PkgProto, "binUInt"+bits)
@@ -1154,7 +1095,50 @@ func ruleLimbPairs(c *Ctx, p *core.Program, rule string) {
 		n++
 		key := "limbs/UInt" + bits
 		putMap, getMap := map[string]int64{}, map[string]int64{}
+		putOf[put], getOf[get] = putMap, getMap
 		okAll := true
+		// a wide helper built from the narrower pair: the halves are composed with the narrower maps
+		for _, call := range core.Calls(put) {
+			sub, ok := putOf[core.StaticFn(call)]
+			if !ok || core.StaticFn(call) == put {
+				continue
+			}
+			args := call.Common().Args
+			lo, _, okw := window(args[0])
+			path, okp := valuePath(args[1])
+			if !okw || !okp {
+				okAll = false
+				continue
+			}
+			for sp, off := range sub {
+				putMap[path+sp] = lo + off
+			}
+		}
+		for _, b := range get.Blocks {
+			for _, in := range b.Instrs {
+				st, ok := in.(*ssa.Store)
+				if !ok {
+					continue
+				}
+				cl, ok := st.Val.(*ssa.Call)
+				if !ok {
+					continue
+				}
+				sub, ok := getOf[core.StaticFn(cl)]
+				if !ok || core.StaticFn(cl) == get {
+					continue
+				}
+				lo, _, okw := window(cl.Call.Args[0])
+				path, okp := addrPath(st.Addr)
+				if !okw || !okp {
+					okAll = false
+					continue
+				}
+				for sp, off := range sub {
+					getMap[path+sp] = lo + off
+				}
+			}
+		}
 		for _, call := range core.Calls(put) {
 			if !isLE(core.CalleeFunc(call), "PutUint64") {
 				continue
@@ -1230,5 +1214,1026 @@ func sortStrings(s []string) {
 		for j := i; j > 0 && s[j] < s[j-1]; j-- {
 			s[j], s[j-1] = s[j-1], s[j]
 		}
+	}
+}
+
+// tableNameStore finds, in host or one of its closures, the store of
+// ClientData.TableName whose value is host's parameter prm (directly, through
+// the closure binding, or through the cell the parameter was spilled to). It
+// returns the store and the function that holds it; store is nil when no
+// TableName store exists, fromParam tells whether the one found takes prm.
+func tableNameStore(host *ssa.Function, prm *ssa.Parameter) (store *ssa.Store, in *ssa.Function, fromParam bool) {
+	isPrm := func(fn *ssa.Function, v ssa.Value) bool {
+		return core.DependsOn(v, func(x ssa.Value) bool {
+			if x == ssa.Value(prm) {
+				return true
+			}
+			if al, ok := x.(*ssa.Alloc); ok {
+				return isParamCell(host, al, prm.Name())
+			}
+			if fv, ok := x.(*ssa.FreeVar); ok && fn.Parent() == host {
+				bnd := freeVarBinding(host, fn, fv.Name())
+				if bnd == ssa.Value(prm) {
+					return true
+				}
+				return bnd != nil && isParamCell(host, bnd, prm.Name())
+			}
+			return false
+		}, false)
+	}
+	for _, fn := range append([]*ssa.Function{host}, host.AnonFuncs...) {
+		for _, b := range fn.Blocks {
+			for _, i := range b.Instrs {
+				st, ok := i.(*ssa.Store)
+				if !ok {
+					continue
+				}
+				fa, ok := st.Addr.(*ssa.FieldAddr)
+				if !ok || fieldNameOnly(fa.X.Type(), fa.Field) != "TableName" || !core.IsNamed(derefType(fa.X.Type()), core.PkgProto, "ClientData") {
+					continue
+				}
+				store, in = st, fn
+				if isPrm(fn, st.Val) {
+					return st, fn, true
+				}
+			}
+		}
+	}
+	return store, in, false
+}
+
+// headerEncoding locates where encodeBlock (eb, table-name parameter tn)
+// performs the header encoding: the instruction of eb that does it or hands it
+// over (site), whether the name stored is eb's argument, and - when the
+// encoding lives in a helper of package ch - whether the helper performs it on
+// every path.
+func headerEncoding(eb *ssa.Function, tn *ssa.Parameter) (site ssa.Instruction, found, fromArg, helperTotal bool) {
+	siteOf := func(host *ssa.Function, st *ssa.Store, in *ssa.Function) ssa.Instruction {
+		if in == host {
+			return st
+		}
+		for _, b := range host.Blocks {
+			for _, i := range b.Instrs {
+				if cl, ok := i.(ssa.CallInstruction); ok {
+					for _, a := range cl.Common().Args {
+						if mc, ok := a.(*ssa.MakeClosure); ok && mc.Fn == ssa.Value(in) {
+							return i
+						}
+					}
+				}
+			}
+		}
+		return nil
+	}
+	if st, in, ok := tableNameStore(eb, tn); st != nil {
+		return siteOf(eb, st, in), true, ok, true
+	}
+	for _, call := range core.Calls(eb) {
+		h := core.StaticFn(call)
+		if h == nil || h.Blocks == nil || pkgOf(h) == nil || pkgOf(h).Path() != core.PkgCh {
+			continue
+		}
+		args := call.Common().Args
+		for pi, prm := range h.Params {
+			if pi >= len(args) {
+				continue
+			}
+			if b, ok := prm.Type().Underlying().(*types.Basic); !ok || b.Kind() != types.String {
+				continue
+			}
+			st, in, ok := tableNameStore(h, prm)
+			if st == nil {
+				continue
+			}
+			hs := siteOf(h, st, in)
+			total := hs != nil && len(core.ReachAvoiding(core.Entry(h), func(i ssa.Instruction) bool {
+				_, isRet := i.(*ssa.Return)
+				return isRet
+			}, func(i ssa.Instruction) bool { return i == hs }, nilErrEdge)) == 0
+			return call.(ssa.Instruction), true, ok && stripConv(args[pi]) == ssa.Value(tn), total
+		}
+	}
+	return nil, false, false, false
+}
+
+// Rules added in seeding round 13.
+
+// ruleValidateBeforeAlloc (C05.validate-first): both header size fields are checked before anything is allocated.
+func ruleValidateBeforeAlloc(c *Ctx, p *core.Program, rule string) {
+	c.R.Rule(rule, "in compress.Reader.readBlock (and the package helpers it calls, each anchored at its call site in readBlock) every limit test of a header size field (a comparison of a value read from the frame header with a constant, one side of which leads to an error exit) comes before every allocation sized by a header field: a frame whose compressed-size field is out of range is refused before the 128 MiB its data-size field may announce are allocated, and vice versa")
+	cfg := p.Cfg.Name
+	rb := p.Method(core.PkgCompress, "Reader", "readBlock")
+	if !c.must(p, "compress.Reader.readBlock", rb != nil) {
+		return
+	}
+	fns := []*ssa.Function{rb}
+	for g := range core.StaticReach(rb, 2) {
+		if g != rb && g.Blocks != nil && pkgOf(g) != nil && pkgOf(g).Path() == core.PkgCompress {
+			fns = append(fns, g)
+		}
+	}
+	sortFns(fns)
+	isRead := func(x ssa.Value) bool {
+		cl, ok := x.(*ssa.Call)
+		if !ok {
+			return false
+		}
+		f := core.CalleeFunc(cl)
+		return f != nil && f.Pkg() != nil && f.Pkg().Path() == "encoding/binary" && (f.Name() == "Uint32" || f.Name() == "Uint64" || f.Name() == "Uint16")
+	}
+	var fromHeader func(fn *ssa.Function, v ssa.Value, d int) bool
+	fromHeader = func(fn *ssa.Function, v ssa.Value, d int) bool {
+		if core.DependsOn(v, isRead, false) || core.DependsOnResults(v, isRead) {
+			return true
+		}
+		if d > 1 {
+			return false
+		}
+		// a parameter fed with a header value at a call site
+		found := false
+		core.DependsOn(v, func(x ssa.Value) bool {
+			prm, ok := x.(*ssa.Parameter)
+			if !ok {
+				return false
+			}
+			for pi, q := range fn.Params {
+				if q != prm {
+					continue
+				}
+				for _, g := range fns {
+					for _, call := range core.Calls(g) {
+						if core.StaticFn(call) == fn && pi < len(call.Common().Args) && fromHeader(g, call.Common().Args[pi], d+1) {
+							found = true
+						}
+					}
+				}
+			}
+			return false
+		}, false)
+		return found
+	}
+	type site struct {
+		fn *ssa.Function
+		in ssa.Instruction
+	}
+	var tests, allocs []site
+	for _, fn := range fns {
+		for _, b := range fn.Blocks {
+			for _, in := range b.Instrs {
+				if ms, ok := in.(*ssa.MakeSlice); ok && fromHeader(fn, ms.Len, 0) {
+					allocs = append(allocs, site{fn, in})
+				}
+			}
+			ifi, ok := b.Instrs[len(b.Instrs)-1].(*ssa.If)
+			if !ok {
+				continue
+			}
+			bo, ok := ifi.Cond.(*ssa.BinOp)
+			if !ok {
+				continue
+			}
+			_, cx := intConstOf(bo.X)
+			_, cy := intConstOf(bo.Y)
+			if !(cx && fromHeader(fn, bo.Y, 0) || cy && fromHeader(fn, bo.X, 0)) {
+				continue
+			}
+			switch bo.Op {
+			case token.LSS, token.LEQ, token.GTR, token.GEQ:
+			default:
+				continue
+			}
+			fails := false
+			for _, s := range b.Succs {
+				for _, x := range append([]*ssa.BasicBlock{s}, s.Succs...) {
+					if r, ok := x.Instrs[len(x.Instrs)-1].(*ssa.Return); ok {
+						if rv := core.ReturnErr(fn, r); rv != nil && !core.IsNilConst(rv) {
+							fails = true
+						}
+					}
+				}
+			}
+			if fails {
+				tests = append(tests, site{fn, ifi})
+			}
+		}
+	}
+	c.R.Count("header limit tests in readBlock", len(tests))
+	c.R.Count("header-sized allocations in readBlock", len(allocs))
+	if len(tests) < 2 || len(allocs) == 0 {
+		c.R.Unk(rule, core.FuncName(rb), cfg, p.Pos(rb.Pos()), sprintf("%d limit tests and %d header-sized allocations recognised in readBlock and its helpers (expected at least 2 and 1)", len(tests), len(allocs)))
+		return
+	}
+	anchor := func(s site) ssa.Instruction {
+		if s.fn == rb {
+			return s.in
+		}
+		for _, call := range core.Calls(rb) {
+			if g := core.StaticFn(call); g != nil && (g == s.fn || core.StaticReach(g, 2)[s.fn]) {
+				return call.(ssa.Instruction)
+			}
+		}
+		return nil
+	}
+	bad := false
+	for i, a := range allocs {
+		for _, t := range tests {
+			aa, ta := anchor(a), anchor(t)
+			ok := false
+			switch {
+			case aa == nil || ta == nil:
+				ok = false
+			case aa == ta && a.fn == t.fn:
+				ok = t.in.Block() != a.in.Block() && t.in.Block().Dominates(a.in.Block())
+			case aa == ta:
+				ok = false
+			default:
+				ok = core.Dominates(ta, aa)
+			}
+			if !ok {
+				bad = true
+				c.R.Bad(rule, sprintf("%s/alloc#%d", core.FuncName(rb), i+1), cfg, p.Pos(a.in.Pos()), "this allocation is not preceded by the limit test at "+p.Pos(t.in.Pos())+": a header with one field in range and the other out of range is refused only after the in-range field's size has been allocated")
+				break
+			}
+		}
+	}
+	if !bad {
+		c.R.Ok(rule, core.FuncName(rb), cfg, p.Pos(rb.Pos()), sprintf("%d limit tests come before %d header-sized allocations", len(tests), len(allocs)))
+	}
+}
+
+// ruleDialUnderContext (C10.dial-ctx): everything Dial waits for is under the caller's context.
+func ruleDialUnderContext(c *Ctx, p *core.Program, rule string) {
+	c.R.Rule(rule, "package ch and chpool establish connections only through context-taking calls: no net.Dial / net.DialTimeout / tls.Dial / tls.DialWithDialer / (*net.Dialer).Dial / (*tls.Dialer).Dial and no (*tls.Conn).Handshake (the context-less TLS handshake) - a peer that accepts the TCP connection and never answers the ClientHello would block Dial beyond cancellation and deadline, before the handshake watchdog exists; the context-taking calls that are made (DialContext, HandshakeContext) receive a context derived from the function's own")
+	cfg := p.Cfg.Name
+	n, bad := 0, 0
+	for _, fn := range p.Funcs() {
+		if pkgOf(fn) == nil || fn.Blocks == nil {
+			continue
+		}
+		pk := pkgOf(fn).Path()
+		if pk != core.PkgCh && pk != core.PkgPool {
+			continue
+		}
+		for _, call := range core.Calls(fn) {
+			cc := call.Common()
+			name, owner := "", ""
+			if cc.IsInvoke() {
+				name = cc.Method.Name()
+				if cc.Method.Pkg() != nil {
+					owner = cc.Method.Pkg().Path()
+				}
+			} else if f := core.CalleeFunc(call); f != nil && f.Pkg() != nil {
+				name, owner = f.Name(), f.Pkg().Path()
+				if r := core.RecvNamed(f); r != nil {
+					name = r.Obj().Name() + "." + name
+				}
+			}
+			switch {
+			case owner == "net" && (name == "Dial" || name == "DialTimeout" || name == "Dialer.Dial"),
+				owner == "crypto/tls" && (name == "Dial" || name == "DialWithDialer" || name == "Dialer.Dial" || name == "Conn.Handshake"):
+				bad++
+				c.R.Bad(rule, core.CallKey(fn, call), cfg, p.Pos(call.Pos()), owner+"."+name+" waits for the peer without the caller's context: cancellation and deadline do not end it")
+			case name == "DialContext" || name == "Dialer.DialContext" || name == "Conn.HandshakeContext":
+				n++
+			}
+		}
+	}
+	c.R.Count("context-taking dial / handshake calls", n)
+	c.R.Floor(rule, cfg, n, 1)
+	if bad == 0 {
+		c.R.Ok(rule, "ch/dial", cfg, "", sprintf("%d context-taking dial calls, no context-less one", n))
+	}
+}
+
+// ruleClockKind (C11.clock-kind): a connection's age is compared with the lifetime limit and its idle time with the idle limit.
+func ruleClockKind(c *Ctx, p *core.Program, rule string) {
+	c.R.Rule(rule, "in package chpool every comparison with Options.MaxConnLifetime has, on its other side, a duration derived from the resource's CreationTime(), and every comparison with Options.MaxConnIdleTime one derived from IdleDuration() (or the constant 0) - a parameter of a shared predicate is resolved at each of its call sites; with the two swapped, an idle connection whose lifetime has run out is kept until it has also been idle that long")
+	cfg := p.Cfg.Name
+	want := map[string]string{"Options.MaxConnLifetime": "CreationTime", "Options.MaxConnIdleTime": "IdleDuration"}
+	var fns []*ssa.Function
+	for _, fn := range p.Funcs() {
+		if pkgOf(fn) != nil && pkgOf(fn).Path() == core.PkgPool && fn.Blocks != nil {
+			fns = append(fns, fn)
+		}
+	}
+	isCall := func(name string) func(ssa.Value) bool {
+		return func(v ssa.Value) bool {
+			cl, ok := v.(*ssa.Call)
+			if !ok {
+				return false
+			}
+			if cl.Call.IsInvoke() {
+				return cl.Call.Method.Name() == name
+			}
+			f := core.CalleeFunc(cl)
+			return f != nil && f.Name() == name && f.Pkg() != nil && f.Pkg().Path() == pkgPuddle
+		}
+	}
+	var kinds func(fn *ssa.Function, v ssa.Value, depth int) map[string]bool
+	kinds = func(fn *ssa.Function, v ssa.Value, depth int) map[string]bool {
+		out := map[string]bool{}
+		if depth > 3 {
+			return out
+		}
+		if k, ok := intConstOf(v); ok && k == 0 {
+			out["zero"] = true
+			return out
+		}
+		if prm, ok := stripConv(v).(*ssa.Parameter); ok {
+			for pi, q := range fn.Params {
+				if q != prm {
+					continue
+				}
+				for _, g := range fns {
+					for _, call := range core.Calls(g) {
+						if core.StaticFn(call) == fn && pi < len(call.Common().Args) {
+							for k := range kinds(g, call.Common().Args[pi], depth+1) {
+								out[k] = true
+							}
+						}
+					}
+				}
+			}
+			return out
+		}
+		for _, name := range []string{"CreationTime", "IdleDuration"} {
+			if core.DependsOn(v, isCall(name), true) {
+				out[name] = true
+			}
+		}
+		return out
+	}
+	n := 0
+	for _, fn := range fns {
+		for _, b := range fn.Blocks {
+			for _, in := range b.Instrs {
+				bo, ok := in.(*ssa.BinOp)
+				if !ok {
+					continue
+				}
+				switch bo.Op {
+				case token.GTR, token.GEQ, token.LSS, token.LEQ:
+				default:
+					continue
+				}
+				for side, other := range map[ssa.Value]ssa.Value{bo.X: bo.Y, bo.Y: bo.X} {
+					w, ok := want[core.FieldOrigin(side, 0)]
+					if !ok {
+						continue
+					}
+					n++
+					key := sprintf("%s/cmp-%s#%d", core.FuncName(fn), strings.TrimPrefix(core.FieldOrigin(side, 0), "Options."), n)
+					ks := kinds(fn, other, 0)
+					opposite := "IdleDuration"
+					if w == "IdleDuration" {
+						opposite = "CreationTime"
+					}
+					switch {
+					case ks[opposite]:
+						c.R.Bad(rule, key, cfg, p.Pos(bo.Pos()), sprintf("%s is compared with a duration derived from %s(): the lifetime and idle clocks are swapped", strings.TrimPrefix(core.FieldOrigin(side, 0), "Options."), opposite))
+					case ks[w] || (w == "IdleDuration" && ks["zero"] && len(ks) >= 1):
+						c.R.Ok(rule, key, cfg, p.Pos(bo.Pos()), "compared with a duration derived from "+w+"()")
+					default:
+						c.R.Unk(rule, key, cfg, p.Pos(bo.Pos()), "the other side of the comparison is derived from neither CreationTime() nor IdleDuration()")
+					}
+				}
+			}
+		}
+	}
+	c.R.Count("comparisons with the lifetime / idle limits", n)
+	c.R.Floor(rule, cfg, n, 2)
+}
+
+// rulePoolCtxDetached (C11.pool-ctx): the pool's life does not hang on the context of its construction.
+func rulePoolCtxDetached(c *Ctx, p *core.Program, rule string) {
+	c.R.Rule(rule, "no field of chpool.Pool is assigned a value derived from a context.Context parameter (the construction context passed to New / Dial, or anything built from it with context.With*): the background health check and the warm-up dials must keep running after a start-up timeout has fired, or idle connections past MaxConnIdleTime / MaxConnLifetime are never reaped again")
+	cfg := p.Cfg.Name
+	n, bad := 0, 0
+	for _, fn := range p.Funcs() {
+		if pkgOf(fn) == nil || pkgOf(fn).Path() != core.PkgPool || fn.Blocks == nil {
+			continue
+		}
+		var ctxParams []*ssa.Parameter
+		for _, prm := range fn.Params {
+			if core.IsNamed(prm.Type(), "context", "Context") {
+				ctxParams = append(ctxParams, prm)
+			}
+		}
+		for _, b := range fn.Blocks {
+			for _, in := range b.Instrs {
+				st, ok := in.(*ssa.Store)
+				if !ok {
+					continue
+				}
+				fa, ok := st.Addr.(*ssa.FieldAddr)
+				if !ok {
+					continue
+				}
+				// the root of the address: p.options.HealthCheckPeriod is a field of the pool too
+				for {
+					up, isFA := fa.X.(*ssa.FieldAddr)
+					if !isFA {
+						break
+					}
+					fa = up
+				}
+				if !core.IsNamed(derefType(fa.X.Type()), core.PkgPool, "Pool") {
+					continue
+				}
+				n++
+				for _, prm := range ctxParams {
+					if core.DependsOn(st.Val, func(v ssa.Value) bool { return v == ssa.Value(prm) }, true) {
+						bad++
+						c.R.Bad(rule, sprintf("%s/Pool.%s", core.FuncName(fn), fieldNameOnly(fa.X.Type(), fa.Field)), cfg, p.Pos(st.Pos()), "a field of the pool is derived from the context of its construction: when that context ends the pool's background work ends with it while the pool is still open")
+					}
+				}
+			}
+		}
+	}
+	c.R.Count("stores to Pool fields", n)
+	c.R.Floor(rule, cfg, n, 3)
+	if bad == 0 {
+		c.R.Ok(rule, "chpool.Pool", cfg, "", sprintf("%d stores to Pool fields, none derived from a context parameter", n))
+	}
+}
+
+// ruleHandshakeOwner (C12.handshake-owner): the goroutines of the handshake do not share what one of them writes.
+func ruleHandshakeOwner(c *Ctx, p *core.Program, rule string) {
+	c.R.Rule(rule, "among the closures of Client.handshake (the goroutine that writes the hello and decodes the server's answer, and the watchdog that closes the connection when the context ends - they run concurrently and nothing orders them) a field of ch.Client that one of them writes - assigns, or hands out by address to a call, as the decoder of the server hello does with Client.server - is not touched by another one; computed over every function each closure reaches through static calls; mux / closed are the lock rule's, conn is only ever called, never assigned")
+	cfg := p.Cfg.Name
+	hs := p.Method(core.PkgCh, "Client", "handshake")
+	if !c.must(p, "(*ch.Client).handshake", hs != nil) {
+		return
+	}
+	type eff struct {
+		write bool
+		at    ssa.Instruction
+		fn    *ssa.Function
+	}
+	effects := func(root *ssa.Function) map[string]eff {
+		out := map[string]eff{}
+		for fn := range reachNoCallbacks(root) {
+			if pkgOf(fn) == nil || pkgOf(fn).Path() != core.PkgCh || fn.Blocks == nil {
+				continue
+			}
+			for _, b := range fn.Blocks {
+				for _, in := range b.Instrs {
+					f, ok := clientFieldAddr(in)
+					if !ok {
+						continue
+					}
+					fa := in.(*ssa.FieldAddr)
+					w := false
+					for _, r := range *fa.Referrers() {
+						switch x := r.(type) {
+						case *ssa.Store:
+							if x.Addr == ssa.Value(fa) {
+								w = true
+							}
+						case *ssa.MakeInterface:
+							w = true // &c.field handed to a decoder
+						case ssa.CallInstruction:
+							for _, a := range x.Common().Args {
+								if a == ssa.Value(fa) {
+									w = true
+								}
+							}
+						}
+					}
+					if old, seen := out[f]; !seen || (w && !old.write) {
+						out[f] = eff{w, in, fn}
+					}
+				}
+			}
+		}
+		return out
+	}
+	var gs []*ssa.Function
+	for _, a := range hs.AnonFuncs {
+		gs = append(gs, a)
+	}
+	if len(gs) < 2 {
+		c.R.Unk(rule, core.FuncName(hs), cfg, p.Pos(hs.Pos()), sprintf("%d closures in handshake, expected the hello goroutine and the watchdog", len(gs)))
+		return
+	}
+	effs := make([]map[string]eff, len(gs))
+	for i, g := range gs {
+		effs[i] = effects(g)
+	}
+	n, bad := 0, 0
+	for i := range gs {
+		for f, e := range effs[i] {
+			if !e.write || f == "mux" || f == "closed" {
+				continue
+			}
+			n++
+			for j := range gs {
+				if j == i {
+					continue
+				}
+				if o, touched := effs[j][f]; touched {
+					bad++
+					c.R.Bad(rule, sprintf("handshake/Client.%s", f), cfg, p.Pos(o.at.Pos()), sprintf("Client.%s is written in %s (in %s) and touched in %s (in %s): the two closures of the handshake run concurrently", f, core.FuncName(gs[i]), core.FuncName(e.fn), core.FuncName(gs[j]), core.FuncName(o.fn)))
+					break
+				}
+			}
+		}
+	}
+	c.R.Count("Client fields written by a handshake closure", n)
+	if bad == 0 {
+		c.R.Ok(rule, core.FuncName(hs), cfg, p.Pos(hs.Pos()), sprintf("%d closures, %d fields written by one of them, none touched by another", len(gs), n))
+	}
+	c.R.Floor(rule, cfg, n, 1)
+}
+
+// ruleTraceStateInverse (C17.tracestate): the tracestate is decoded by the inverse of what encodes it.
+func ruleTraceStateInverse(c *Ctx, p *core.Program, rule string) {
+	c.R.Rule(rule, "the W3C tracestate travels as one string: package proto produces it with TraceState.String() and parses it with trace.ParseTraceState, the dependency's inverse of String; it never rebuilds the list member by member with TraceState.Insert (which puts every new member in front, so a list of two or more comes back reversed) or edits it with Delete")
+	cfg := p.Cfg.Name
+	n, bad := 0, 0
+	for _, fn := range p.Funcs() {
+		if pkgOf(fn) == nil || pkgOf(fn).Path() != core.PkgProto || fn.Blocks == nil {
+			continue
+		}
+		for _, call := range core.Calls(fn) {
+			f := core.CalleeFunc(call)
+			if f == nil || f.Pkg() == nil || !strings.HasSuffix(f.Pkg().Path(), "otel/trace") {
+				continue
+			}
+			r := core.RecvNamed(f)
+			switch {
+			case f.Name() == "ParseTraceState":
+				n++
+				c.R.Ok(rule, core.CallKey(fn, call), cfg, p.Pos(call.Pos()), "parsed by the dependency's inverse of String")
+			case r != nil && r.Obj().Name() == "TraceState" && (f.Name() == "Insert" || f.Name() == "Delete"):
+				bad++
+				c.R.Bad(rule, core.CallKey(fn, call), cfg, p.Pos(call.Pos()), "the tracestate is rebuilt with TraceState."+f.Name()+": Insert prepends, so the decoded list is the reverse of the encoded one")
+			}
+		}
+	}
+	c.R.Floor(rule, cfg, n, 1)
+	_ = bad
+}
+
+// ruleAutoTargetsKept (C18.targets-kept): the Auto result never forgets what it inferred.
+func ruleAutoTargetsKept(c *Ctx, p *core.Program, rule string) {
+	c.R.Rule(rule, "in the block decoders of package proto (Results.DecodeResult, Results.decodeAuto, autoResults.DecodeResult and their package helpers) the target list behind a *Results is only ever extended - every store through a *Results pointer is `append(*s, ...)` of the list it replaces: once targets were inferred, a block with another column count must meet them and be refused; truncating or replacing the list (`(*s)[:0]`) turns that mismatch into a silent re-inference")
+	cfg := p.Cfg.Name
+	n, bad := 0, 0
+	for _, fn := range p.Funcs() {
+		if pkgOf(fn) == nil || pkgOf(fn).Path() != core.PkgProto || fn.Blocks == nil {
+			continue
+		}
+		for _, b := range fn.Blocks {
+			for _, in := range b.Instrs {
+				st, ok := in.(*ssa.Store)
+				if !ok {
+					continue
+				}
+				pt, ok := st.Addr.Type().Underlying().(*types.Pointer)
+				if !ok || !core.IsNamed(pt.Elem(), core.PkgProto, "Results") {
+					continue
+				}
+				if _, ptrToPtr := pt.Elem().Underlying().(*types.Pointer); ptrToPtr {
+					continue // a field that holds a *Results, not the list
+				}
+				// stores to a local variable of type Results (a fresh list under construction) are not the shared list
+				if _, isLocal := st.Addr.(*ssa.Alloc); isLocal {
+					continue
+				}
+				n++
+				key := sprintf("%s/store-Results#%d", core.FuncName(fn), n)
+				okAppend := false
+				if cl, isCall := stripConv(st.Val).(*ssa.Call); isCall {
+					if bi, isB := cl.Call.Value.(*ssa.Builtin); isB && bi.Name() == "append" {
+						if u, isLoad := stripConv(cl.Call.Args[0]).(*ssa.UnOp); isLoad && u.Op == token.MUL && u.X == st.Addr {
+							okAppend = true
+						}
+					}
+				}
+				if okAppend {
+					c.R.Ok(rule, key, cfg, p.Pos(st.Pos()), "the target list is extended by append")
+				} else {
+					bad++
+					c.R.Bad(rule, key, cfg, p.Pos(st.Pos()), "the target list behind a *Results is replaced or truncated: a later block with another column count is accepted and the inferred targets are silently dropped")
+				}
+			}
+		}
+	}
+	c.R.Count("stores through *Results", n)
+	c.R.Floor(rule, cfg, n, 1)
+}
+
+// ruleElemFromEnd (C18.elem-last): the parameter list of a type ends at its last parenthesis.
+func ruleElemFromEnd(c *Ctx, p *core.Program, rule string) {
+	c.R.Rule(rule, "ColumnType.Elem - the helper every Infer uses to read the parameters of a type - finds the closing parenthesis from the end of the string (strings.LastIndex*): a forward scan that counts parentheses without regard to quoting ends at a `)` inside an enum value name ('a)' = 1) and hands the Infer hooks a truncated list, so an equal schema is refused")
+	cfg := p.Cfg.Name
+	fn := p.Method(core.PkgProto, "ColumnType", "Elem")
+	if !c.must(p, "proto.ColumnType.Elem", fn != nil) {
+		return
+	}
+	isLast := func(v ssa.Value) bool {
+		cl, ok := v.(*ssa.Call)
+		if !ok {
+			return false
+		}
+		f := core.CalleeFunc(cl)
+		return f != nil && f.Pkg() != nil && (f.Pkg().Path() == "strings" || f.Pkg().Path() == "bytes") && strings.HasPrefix(f.Name(), "LastIndex")
+	}
+	n := 0
+	for _, b := range fn.Blocks {
+		for _, in := range b.Instrs {
+			sl, ok := in.(*ssa.Slice)
+			if !ok || sl.High == nil {
+				continue
+			}
+			if _, isConst := intConstOf(sl.High); isConst {
+				continue
+			}
+			n++
+			key := sprintf("%s/slice#%d", core.FuncName(fn), n)
+			if core.DependsOn(sl.High, isLast, false) || core.DependsOnResults(sl.High, isLast) {
+				c.R.Ok(rule, key, cfg, p.Pos(sl.Pos()), "upper bound found from the end of the string")
+			} else {
+				c.R.Bad(rule, key, cfg, p.Pos(sl.Pos()), "the end of the parameter list is not searched from the end of the string")
+			}
+		}
+	}
+	c.R.Floor(rule, cfg, n, 1)
+}
+
+// ruleCutBeforeChain (C14.cut-first): ChainWrite cuts the staging buffer before it records anything.
+func ruleCutBeforeChain(c *Ctx, p *core.Program, rule string) {
+	c.R.Rule(rule, "in Writer.ChainWrite every store into the vector (the net.Buffers field, or an element of it) is dominated by the call that cuts the staging buffer: bytes staged since the previous ChainWrite must get their place in the vector first, otherwise a slice that is recorded (or merged into its predecessor) without the cut overtakes them and the call order is lost")
+	cfg := p.Cfg.Name
+	cw := p.Method(core.PkgProto, "Writer", "ChainWrite")
+	if !c.must(p, "(*proto.Writer).ChainWrite", cw != nil) {
+		return
+	}
+	isVec := func(v ssa.Value) bool {
+		fa, ok := v.(*ssa.FieldAddr)
+		if !ok {
+			return false
+		}
+		return core.IsNamed(fieldTypeOf(fa), "net", "Buffers")
+	}
+	var cuts []ssa.Instruction
+	for _, call := range core.Calls(cw) {
+		if f := core.CalleeFunc(call); f != nil && core.IsMethod(f, core.PkgProto, "Writer", "cutBuffer") {
+			cuts = append(cuts, call.(ssa.Instruction))
+		}
+	}
+	if len(cuts) == 0 {
+		c.R.Bad(rule, core.FuncName(cw), cfg, p.Pos(cw.Pos()), "ChainWrite never cuts the staging buffer")
+		return
+	}
+	n, bad := 0, 0
+	for _, b := range cw.Blocks {
+		for _, in := range b.Instrs {
+			st, ok := in.(*ssa.Store)
+			if !ok {
+				continue
+			}
+			toVec := isVec(st.Addr)
+			if ia, ok := st.Addr.(*ssa.IndexAddr); ok && core.DependsOn(ia.X, isVec, false) {
+				toVec = true
+			}
+			if !toVec {
+				continue
+			}
+			n++
+			dom := false
+			for _, cut := range cuts {
+				if core.Dominates(cut, st) {
+					dom = true
+				}
+			}
+			if !dom {
+				bad++
+				c.R.Bad(rule, sprintf("%s/store#%d", core.FuncName(cw), n), cfg, p.Pos(st.Pos()), "the vector is changed on a path that has not cut the staging buffer: bytes staged before this call come out after the slice recorded here")
+			}
+		}
+	}
+	c.R.Floor(rule, cfg, n, 1)
+	if bad == 0 {
+		c.R.Ok(rule, core.FuncName(cw), cfg, p.Pos(cw.Pos()), sprintf("%d stores into the vector, all after the cut", n))
+	}
+}
+
+func fieldTypeOf(fa *ssa.FieldAddr) types.Type {
+	t := derefType(fa.X.Type())
+	if st, ok := t.Underlying().(*types.Struct); ok && fa.Field < st.NumFields() {
+		return st.Field(fa.Field).Type()
+	}
+	return types.Typ[types.Invalid]
+}
+
+// ruleSameAtomArgs (C14.same-args): the vectored and the buffered encoder put the same fields into the same places.
+func ruleSameAtomArgs(c *Ctx, p *core.Program, rule string) {
+	c.R.Rule(rule, "for a column type whose EncodeColumn and WriteColumn both emit scalar atoms (Buffer.Put* outside loops; WriteColumn's inside its ChainBuffer callbacks, in call order), the i-th atom of both takes its value from the same receiver fields: the two paths are chosen by compression alone, so a flags word that carries the key width in one and not in the other makes the reader of uncompressed INSERTs mis-frame the column; pairs with different atom counts or values computed by whole-receiver helpers are not compared")
+	cfg := p.Cfg.Name
+	n := 0
+	for _, ct := range columnTypes(p) {
+		enc, wr := methodOf(p, ct, "EncodeColumn"), methodOf(p, ct, "WriteColumn")
+		if enc == nil || wr == nil || enc.Blocks == nil || wr.Blocks == nil {
+			continue
+		}
+		isCol := func(t types.Type) bool {
+			nn := core.NamedOf(derefType(t))
+			return nn != nil && nn.Obj() == ct.Obj()
+		}
+		fieldsOf := func(v ssa.Value) (map[string]bool, bool) {
+			out := map[string]bool{}
+			whole := false
+			core.DependsOn(v, func(x ssa.Value) bool {
+				switch y := x.(type) {
+				case *ssa.FieldAddr:
+					if isCol(y.X.Type()) {
+						out[fieldNameOnly(y.X.Type(), y.Field)] = true
+					}
+				case *ssa.Field:
+					if isCol(y.X.Type()) {
+						out[fieldNameOnly(y.X.Type(), y.Field)] = true
+					}
+				case *ssa.Call:
+					for _, a := range y.Call.Args {
+						if isCol(a.Type()) {
+							whole = true
+						}
+					}
+				}
+				return false
+			}, true)
+			return out, whole
+		}
+		var atoms func(fn *ssa.Function, depth int) []ssa.Value
+		atoms = func(fn *ssa.Function, depth int) []ssa.Value {
+			var out []ssa.Value
+			for _, b := range fn.Blocks {
+				for _, in := range b.Instrs {
+					call, ok := in.(ssa.CallInstruction)
+					if !ok || core.InLoop(in) {
+						continue
+					}
+					f := core.CalleeFunc(call)
+					if f == nil {
+						continue
+					}
+					if r := core.RecvNamed(f); r != nil && r.Obj().Name() == "Buffer" && strings.HasPrefix(f.Name(), "Put") && len(call.Common().Args) == 2 {
+						out = append(out, call.Common().Args[1])
+						continue
+					}
+					if core.IsMethod(f, core.PkgProto, "Writer", "ChainBuffer") && depth < 2 {
+						if cb := core.ClosureArg(call, 1); cb != nil {
+							out = append(out, atoms(cb, depth+1)...)
+						}
+					}
+				}
+			}
+			return out
+		}
+		ea, wa := atoms(enc, 0), atoms(wr, 0)
+		if len(ea) == 0 || len(ea) != len(wa) {
+			continue
+		}
+		n++
+		key := "pair/" + ct.Obj().Name()
+		bad := false
+		for i := range ea {
+			ef, ew := fieldsOf(ea[i])
+			wf, ww := fieldsOf(wa[i])
+			if ew || ww {
+				continue
+			}
+			same := len(ef) == len(wf)
+			for f := range ef {
+				if !wf[f] {
+					same = false
+				}
+			}
+			if !same {
+				bad = true
+				c.R.Bad(rule, sprintf("%s/atom#%d", key, i+1), cfg, p.Pos(wa[i].Pos()), sprintf("atom %d takes its value from fields %s in EncodeColumn and from %s in WriteColumn", i+1, strKeys(ef), strKeys(wf)))
+			}
+		}
+		if !bad {
+			c.R.Ok(rule, key, cfg, p.Pos(wr.Pos()), sprintf("%d scalar atoms take their values from the same fields in both encoders", len(ea)))
+		}
+	}
+	c.R.Count("encoder pairs with comparable scalar atoms", n)
+	c.R.Floor(rule, cfg, n, 1)
+}
+
+// ruleAddrStringDelegates (C20.addr-string): address text comes from the standard library.
+func ruleAddrStringDelegates(c *Ctx, p *core.Program, rule string) {
+	c.R.Rule(rule, "IPv4.String and IPv6.String are formatted by the standard library (net.IP.String / netip.Addr.String on the converted value): they contain no digit arithmetic of their own; a hand-written formatter is a form this check does not decide (String -> Parse -> To must stay the identity for every address, which no shape rule in reach establishes for custom digit code)")
+	cfg := p.Cfg.Name
+	n := 0
+	for _, tn := range []string{"IPv4", "IPv6"} {
+		fn := p.Method(core.PkgProto, tn, "String")
+		if fn == nil || fn.Blocks == nil {
+			continue
+		}
+		n++
+		key := tn + ".String"
+		delegated := false
+		arith := false
+		for g := range core.StaticReach(fn, 2) {
+			if pkgOf(g) == nil || pkgOf(g).Path() != core.PkgProto || g.Blocks == nil {
+				continue
+			}
+			for _, b := range g.Blocks {
+				for _, in := range b.Instrs {
+					switch x := in.(type) {
+					case ssa.CallInstruction:
+						if f := core.CalleeFunc(x); f != nil && f.Name() == "String" && f.Pkg() != nil && (f.Pkg().Path() == "net" || f.Pkg().Path() == "net/netip") {
+							delegated = true
+						}
+					case *ssa.BinOp:
+						if g == fn || strings.HasPrefix(strings.ToLower(g.Name()), "append") {
+							if x.Op == token.REM || x.Op == token.QUO {
+								arith = true
+							}
+						}
+					}
+				}
+			}
+		}
+		switch {
+		case delegated && !arith:
+			c.R.Ok(rule, key, cfg, p.Pos(fn.Pos()), "formatted by the standard library")
+		default:
+			c.R.Unk(rule, key, cfg, p.Pos(fn.Pos()), "the address is formatted by hand-written digit code: not a recognised form")
+		}
+	}
+	c.R.Floor(rule, cfg, n, 2)
+}
+
+// ruleInstantKept (C20.instant): a time column stores the instant it is given.
+func ruleInstantKept(c *Ctx, p *core.Program, rule string) {
+	c.R.Rule(rule, "in Append / AppendArr of the time columns (and the same-type helpers they call) the time.Time handed to ToDateTime / ToDateTime64 / ToDate / ToDate32 is the appended value itself - the parameter or an element of the slice parameter - never the result of a call (time.Date rebuilding the wall clock in the column's Location, In, Truncate ...): the column's zone is presentation, the stored ticks are the instant")
+	cfg := p.Cfg.Name
+	n := 0
+	conv := map[string]bool{"ToDateTime": true, "ToDateTime64": true, "ToDate": true, "ToDate32": true}
+	for _, ct := range columnTypes(p) {
+		name := ct.Obj().Name()
+		if !strings.HasPrefix(name, "ColDate") {
+			continue
+		}
+		for _, mn := range []string{"Append", "AppendArr"} {
+			fn := methodOf(p, ct, mn)
+			if fn == nil || fn.Blocks == nil {
+				continue
+			}
+			fns := []*ssa.Function{fn}
+			for _, g := range core.StaticReachList(fn) {
+				if g == nil || g == fn || g.Blocks == nil {
+					continue
+				}
+				h := g
+				if h.Synthetic != "" {
+					for _, wc := range core.Calls(h) {
+						if o := core.StaticFn(wc); o != nil && o.Blocks != nil && strings.HasPrefix(h.Name(), o.Name()) {
+							h = o
+						}
+					}
+				}
+				if r := core.RecvNamed2(h); r != nil && r.Obj() == ct.Obj() {
+					fns = append(fns, h)
+				}
+			}
+			for _, g := range fns {
+				for _, call := range core.Calls(g) {
+					f := core.CalleeFunc(call)
+					if f == nil || !conv[f.Name()] || f.Pkg() == nil || f.Pkg().Path() != core.PkgProto {
+						continue
+					}
+					n++
+					key := sprintf("%s.%s/%s", name, mn, core.CallKey(g, call))
+					arg := call.Common().Args[0]
+					if core.DependsOn(arg, func(v ssa.Value) bool { _, isCall := v.(*ssa.Call); return isCall }, false) {
+						c.R.Bad(rule, key, cfg, p.Pos(call.Pos()), "the value converted to ticks is the result of a call, not the appended time itself: the stored instant depends on the column's or the value's zone")
+					} else {
+						c.R.Ok(rule, key, cfg, p.Pos(call.Pos()), "the appended value is converted as it is")
+					}
+				}
+			}
+		}
+	}
+	c.R.Count("time conversions in Append paths", n)
+	c.R.Floor(rule, cfg, n, 4)
+}
+
+// ruleStringIndexGuard (C19.index-guard): a byte of a type-string fragment is read only when it exists.
+func ruleStringIndexGuard(c *Ctx, p *core.Program, rule string) {
+	c.R.Rule(rule, "in the Infer methods of package proto and the package helpers they call, s[k] with a constant k on a string is reached only through an edge that establishes len(s) > k (a test of len(s) against a constant, or s != \"\"): the fragments come from cutting and trimming a type string sent by the peer, and ` ` or `''` trims to nothing - reading its first byte before the length test panics inside Results.Auto on a malformed DateTime64( ) header")
+	cfg := p.Cfg.Name
+	n, bad := 0, 0
+	seen := map[*ssa.Function]bool{}
+	var fns []*ssa.Function
+	for _, ct := range columnTypes(p) {
+		inf := methodOf(p, ct, "Infer")
+		if inf == nil || inf.Blocks == nil {
+			continue
+		}
+		for g := range core.StaticReach(inf, 2) {
+			if g.Blocks != nil && pkgOf(g) != nil && pkgOf(g).Path() == core.PkgProto && !seen[g] {
+				seen[g] = true
+				fns = append(fns, g)
+			}
+		}
+	}
+	sortFns(fns)
+	for _, fn := range fns {
+		for _, b := range fn.Blocks {
+			for _, in := range b.Instrs {
+				lk, ok := in.(*ssa.Index) // x/tools v0.29: s[i] on a string is an Index, not a Lookup
+				if !ok {
+					continue
+				}
+				if bt, isB := lk.X.Type().Underlying().(*types.Basic); !isB || bt.Info()&types.IsString == 0 {
+					continue
+				}
+				k, isConst := intConstOf(lk.Index)
+				if !isConst {
+					continue
+				}
+				n++
+				key := sprintf("%s/index#%d", core.FuncName(fn), n)
+				isLen := func(v ssa.Value) bool {
+					cl, ok := stripConv(v).(*ssa.Call)
+					if !ok {
+						return false
+					}
+					bi, ok := cl.Call.Value.(*ssa.Builtin)
+					return ok && bi.Name() == "len" && cl.Call.Args[0] == lk.X
+				}
+				edges := core.CondEdges(fn, true, func(cond ssa.Value) (bool, bool) {
+					bo, ok := cond.(*ssa.BinOp)
+					if !ok {
+						return false, false
+					}
+					// s != "" / s == ""
+					if (bo.X == lk.X || bo.Y == lk.X) && k == 0 {
+						other := bo.Y
+						if bo.Y == lk.X {
+							other = bo.X
+						}
+						if cst, ok := other.(*ssa.Const); ok && cst.Value != nil && cst.Value.ExactString() == `""` {
+							switch bo.Op {
+							case token.NEQ:
+								return true, true
+							case token.EQL:
+								return false, true
+							}
+						}
+					}
+					var cv int64
+					var okc, lenLeft bool
+					switch {
+					case isLen(bo.X):
+						cv, okc = intConstOf(bo.Y)
+						lenLeft = true
+					case isLen(bo.Y):
+						cv, okc = intConstOf(bo.X)
+					}
+					if !okc {
+						return false, false
+					}
+					op := bo.Op
+					if !lenLeft { // c op len  ==  len op' c
+						op = map[token.Token]token.Token{token.LSS: token.GTR, token.GTR: token.LSS, token.LEQ: token.GEQ, token.GEQ: token.LEQ, token.EQL: token.EQL, token.NEQ: token.NEQ}[op]
+					}
+					switch op {
+					case token.GTR: // len > c
+						return true, cv >= k
+					case token.GEQ:
+						return true, cv > k
+					case token.LSS: // len < c : false edge gives len >= c
+						return false, cv > k
+					case token.LEQ:
+						return false, cv >= k
+					case token.EQL: // len == c : true edge gives len = c
+						if cv > k {
+							return true, true
+						}
+						return false, cv <= k && cv == 0 && k == 0
+					case token.NEQ: // len != c : false edge gives len = c
+						return false, cv > k
+					}
+					return false, false
+				})
+				if len(edges) > 0 && core.OnlyViaEdges(fn, lk, edges) {
+					c.R.Ok(rule, key, cfg, p.Pos(lk.Pos()), "behind a test that the byte exists")
+				} else {
+					bad++
+					c.R.Bad(rule, key, cfg, p.Pos(lk.Pos()), sprintf("byte %d of a type-string fragment is read on a path that has not established its length: an empty fragment (blank or quote-only parameter) panics", k))
+				}
+			}
+		}
+	}
+	c.R.Count("constant string indexings on Infer paths", n)
+	if bad == 0 {
+		c.R.Ok(rule, "proto/Infer", cfg, "", sprintf("%d constant string indexings on Infer paths, all guarded", n))
 	}
 }
